@@ -32,6 +32,9 @@ pub mod c20_net;
 
 pub use engine::*;
 
+#[global_allocator]
+static GLOBAL: engine::CountingAlloc = engine::CountingAlloc;
+
 pub type CheckFn = fn(&Ctx);
 
 pub const CHECKS: &[(&str, CheckFn)] = &[
